@@ -108,6 +108,22 @@ def hostile_types():
     return request([f], 'transport=grpc+rest,metadata'), None
 
 
+def hostile_subpackages():
+    """Several proto sub-packages (the order in which %sub templates visit them decides the file order)."""
+    files = []
+    names_ = ['shipping', 'orders', 'billing', 'catalog', 'accounts']
+    for n in names_:
+        sp = f'{P}.{n}'
+        files.append(file(f'acme/det/v1/{n}/{n}.proto', sp,
+                          messages=[message(n.capitalize() + 'Req', [field('name', 1, 'string')]),
+                                    message(n.capitalize() + 'Item', [field('name', 1, 'string')])],
+                          services=[service(n.capitalize() + 'Service', [
+                              method('Get', f'.{sp}.{n.capitalize()}Req', f'.{sp}.{n.capitalize()}Item',
+                                     http=('get', f'/v1/{n}/{{name}}'))])]))
+    root = file('acme/det/v1/root.proto', P, messages=[message('Root', [field('name', 1, 'string')])])
+    return request([root] + files, 'transport=grpc+rest,metadata,autogen-snippets=false'), None
+
+
 def inputs(thorough):
     ok_edits = [n for n in edits.EDIT_NAMES if n not in ('subpkg_service', 'recursive_oneof_first', 'subpkg_types')]
     out = {
@@ -116,6 +132,7 @@ def inputs(thorough):
         'services+imports': hostile_services(),
         'retry': hostile_retry(),
         'types': hostile_types(),
+        'subpackages': hostile_subpackages(),
         'max-state': (edits.build(ok_edits, 'transport=grpc+rest,metadata'), None),
     }
     if thorough:
